@@ -239,6 +239,45 @@ def unroll_table_loops(tree: ast.Module) -> int:
                 out.append(keep)  # the loop variable keeps its last value
                 count += 1
                 return out
+            # a search over a literal table: `for k, f in T: if x == k: A(f); break` + `else: E` is the
+            # if / elif chain over the rows with E as its final else
+            if (
+                isinstance(it, (ast.Tuple, ast.List))
+                and 1 <= len(it.elts) <= 8
+                and isinstance(tg, (ast.Tuple, ast.List))
+                and len(tg.elts) >= 2
+                and all(isinstance(x, ast.Name) for x in tg.elts)
+                and all(literal_row(e, len(tg.elts)) for e in it.elts)
+                and len(node.body) == 1
+                and isinstance(node.body[0], ast.If)
+                and not node.body[0].orelse
+                and node.body[0].body
+                and isinstance(node.body[0].body[-1], ast.Break)
+                and not any(isinstance(x, (ast.Break, ast.Continue, ast.FunctionDef, ast.Lambda)) for b in node.body[0].body[:-1] for x in ast.walk(b))
+                and not any(isinstance(x, (ast.Break, ast.Continue)) for b in node.orelse for x in ast.walk(b))
+            ):
+                tnames = [x.id for x in tg.elts]
+                fn = owner.get(id(node))
+                inside = {id(x) for x in ast.walk(node)}
+                clash = any(isinstance(x, ast.Name) and x.id in tnames for e in it.elts for x in ast.walk(e))
+                stored = any(isinstance(x, ast.Name) and x.id in tnames and isinstance(x.ctx, (ast.Store, ast.Del)) for b in node.body for x in ast.walk(b))
+                outside = fn is None or any(isinstance(x, ast.Name) and x.id in tnames and id(x) not in inside for x in ast.walk(fn))
+                if not (clash or stored or outside):
+                    chain = list(node.orelse)
+                    for e in reversed(it.elts):
+                        row = dict(zip(tnames, e.elts))
+
+                        class S2(ast.NodeTransformer):
+                            def visit_Name(self, n, _row=row):
+                                if n.id in _row and isinstance(n.ctx, ast.Load):
+                                    return ast.copy_location(copy.deepcopy(_row[n.id]), n)
+                                return n
+
+                        arm = ast.If(test=S2().visit(copy.deepcopy(node.body[0].test)), body=[S2().visit(copy.deepcopy(b)) for b in node.body[0].body[:-1]] or [ast.Pass()], orelse=chain)
+                        ast.copy_location(arm, node)
+                        chain = [arm]
+                    count += 1
+                    return chain
             if (
                 isinstance(it, (ast.Tuple, ast.List))
                 and 1 <= len(it.elts) <= 8
@@ -299,6 +338,35 @@ def counted_while_to_for(tree: ast.Module) -> int:
                         idx, bound = r.id, l
                     elif isinstance(t.ops[0], ast.NotEq) and isinstance(l, ast.Name):
                         idx, bound = l.id, r
+                    # counting down: while i >= c: ...; i -= 1
+                    down = None
+                    if isinstance(t.ops[0], (ast.GtE, ast.Gt)) and isinstance(l, ast.Name):
+                        down = (l.id, r, isinstance(t.ops[0], ast.GtE))
+                    elif isinstance(t.ops[0], (ast.LtE, ast.Lt)) and isinstance(r, ast.Name):
+                        down = (r.id, l, isinstance(t.ops[0], ast.LtE))
+                    last_ = st.body[-1]
+                    if down is not None and isinstance(last_, ast.AugAssign) and isinstance(last_.op, ast.Sub) and isinstance(last_.target, ast.Name) and last_.target.id == down[0] and isinstance(last_.value, ast.Constant) and last_.value.value == 1:
+                        didx, dbound, inclusive = down
+                        body = st.body[:-1]
+                        inner = [n for b in body for n in ast.walk(b)]
+                        bound_names = {n.id for n in ast.walk(dbound) if isinstance(n, ast.Name)}
+                        ok = bool(body) and fn_node is not None
+                        ok = ok and not any(isinstance(n, ast.Continue) for n in inner)
+                        ok = ok and not any(isinstance(n, ast.Name) and (n.id == didx or n.id in bound_names) and isinstance(n.ctx, (ast.Store, ast.Del)) for n in inner)
+                        ok = ok and not any(isinstance(n, (ast.FunctionDef, ast.Lambda, ast.Yield, ast.YieldFrom)) for n in inner)
+                        if ok:
+                            inside = {id(n) for n in ast.walk(st)}
+                            ok = not [n for n in ast.walk(fn_node) if isinstance(n, ast.Name) and n.id == didx and isinstance(n.ctx, ast.Load) and id(n) not in inside and getattr(n, "lineno", 0) > st.lineno]
+                        if ok:
+                            stop = ast.BinOp(left=copy.deepcopy(dbound), op=ast.Sub(), right=ast.Constant(1)) if inclusive else copy.deepcopy(dbound)
+                            if inclusive and isinstance(dbound, ast.Constant) and isinstance(dbound.value, int):
+                                stop = ast.UnaryOp(op=ast.USub(), operand=ast.Constant(1 - dbound.value)) if dbound.value - 1 < 0 else ast.Constant(dbound.value - 1)
+                            new = ast.For(target=ast.Name(id=didx, ctx=ast.Store()), iter=ast.Call(func=ast.Name(id="range", ctx=ast.Load()), args=[ast.Name(id=didx, ctx=ast.Load()), stop, ast.UnaryOp(op=ast.USub(), operand=ast.Constant(1))], keywords=[]), body=body, orelse=[], type_comment=None)
+                            ast.copy_location(new, st)
+                            new._from_while = True
+                            count += 1
+                            out.append(new)
+                            continue
                 last = st.body[-1]
                 inc_ok = False
                 if idx is not None:
@@ -821,6 +889,243 @@ def inline_named_conditions(tree: ast.Module) -> int:
                 return n
 
         T().visit(fn)
+    if count:
+        ast.fix_missing_locations(tree)
+    return count
+
+
+# ---------------------------------------------------------------------------------
+# t = f(...); a = t.weights; b = t.factors   ->   a, b = f(...)
+# ---------------------------------------------------------------------------------
+# Every factorised-tensor class of the repository unpacks in the order of these attribute tuples (the
+# wrapper rules of C03 check the constructors); a temporary that is read only through all of them,
+# straight after the call, is the tuple assignment written out.
+_FIELD_ORDERS = [("weights", "factors"), ("core", "factors"), ("weights", "factors", "projections")]
+
+
+def unpack_by_attribute(tree: ast.Module) -> int:
+    count = 0
+    for fn in [n for n in ast.walk(tree) if isinstance(n, (ast.FunctionDef, ast.AsyncFunctionDef))]:
+        uses = {}
+        for n in ast.walk(fn):
+            if isinstance(n, ast.Name):
+                uses[n.id] = uses.get(n.id, 0) + 1
+        for holder in ast.walk(fn):
+            for fld in ("body", "orelse", "finalbody"):
+                blk = getattr(holder, fld, None)
+                if not (isinstance(blk, list) and blk and isinstance(blk[0], ast.stmt)):
+                    continue
+                i = 0
+                while i < len(blk):
+                    st = blk[i]
+                    if isinstance(st, ast.Assign) and len(st.targets) == 1 and isinstance(st.targets[0], ast.Name) and isinstance(st.value, ast.Call):
+                        t = st.targets[0].id
+                        reads = []
+                        j = i + 1
+                        while j < len(blk):
+                            r = blk[j]
+                            if isinstance(r, ast.Assign) and len(r.targets) == 1 and isinstance(r.targets[0], ast.Name) and isinstance(r.value, ast.Attribute) and isinstance(r.value.value, ast.Name) and r.value.value.id == t and r.targets[0].id != t:
+                                reads.append((r.value.attr, r.targets[0].id))
+                                j += 1
+                            else:
+                                break
+                        attrs = tuple(a for a, _ in reads)
+                        order = next((o for o in _FIELD_ORDERS if sorted(o) == sorted(attrs)), None)
+                        if order is not None and len(set(attrs)) == len(attrs) and uses.get(t, 0) == 1 + len(reads) and len({n for _, n in reads}) == len(reads):
+                            by = dict(reads)
+                            new = ast.Assign(targets=[ast.Tuple(elts=[ast.Name(id=by[a], ctx=ast.Store()) for a in order], ctx=ast.Store())], value=st.value, type_comment=None)
+                            ast.copy_location(new, st)
+                            ast.fix_missing_locations(new)
+                            blk[i : j] = [new]
+                            count += 1
+                    i += 1
+    return count
+
+
+# ---------------------------------------------------------------------------------
+# "look up, else default" written as control flow  ->  the lookup expression
+# ---------------------------------------------------------------------------------
+#   try: t = E.attr / except AttributeError: t = D          ->  t = getattr(E, "attr", D)
+#   vars(E)                                                ->  E.__dict__
+#   if "k" not in S: return D / return S["k"]              ->  return S.get("k", D)
+#   if "k" in S: t = S["k"] / else: t = D                  ->  t = S.get("k", D)
+#   S["k"] if "k" in S else D                              ->  S.get("k", D)
+# (string keys only: for a string key `in` and `[...]` can only be the mapping protocol.  E is a plain
+# name or attribute chain; the first form reads an AttributeError raised by E itself as "slot missing"
+# too, which the expression form does not -- the handle expressions this is applied to always exist.)
+def lookup_else_default(tree: ast.Module) -> int:
+    import copy
+
+    count = 0
+
+    def handle(e):
+        return isinstance(e, ast.Name) or (isinstance(e, ast.Attribute) and handle(e.value))
+
+    def str_key(e):
+        return isinstance(e, ast.Constant) and isinstance(e.value, str)
+
+    def member(t):
+        """(S, K, positive) for `K in S` / `K not in S`"""
+        neg = False
+        while isinstance(t, ast.UnaryOp) and isinstance(t.op, ast.Not):
+            t, neg = t.operand, not neg
+        if isinstance(t, ast.Compare) and len(t.ops) == 1 and isinstance(t.ops[0], (ast.In, ast.NotIn)) and str_key(t.left) and handle(t.comparators[0]):
+            return t.comparators[0], t.left, isinstance(t.ops[0], ast.In) != neg
+        return None
+
+    def is_sub(e, S, K):
+        return isinstance(e, ast.Subscript) and ast.dump(e.value) == ast.dump(S) and str_key(e.slice) and e.slice.value == K.value
+
+    def get(S, K, D, at):
+        c = ast.Call(func=ast.Attribute(value=copy.deepcopy(S), attr="get", ctx=ast.Load()), args=[copy.deepcopy(K), copy.deepcopy(D)], keywords=[])
+        return ast.copy_location(c, at)
+
+    class E(ast.NodeTransformer):
+        def visit_Call(self, n):
+            nonlocal count
+            self.generic_visit(n)
+            if isinstance(n.func, ast.Name) and n.func.id == "vars" and len(n.args) == 1 and not n.keywords and handle(n.args[0]):
+                count += 1
+                return ast.copy_location(ast.Attribute(value=n.args[0], attr="__dict__", ctx=ast.Load()), n)
+            return n
+
+        def visit_IfExp(self, n):
+            nonlocal count
+            self.generic_visit(n)
+            m = member(n.test)
+            if m is not None:
+                S, K, pos = m
+                hit, miss = (n.body, n.orelse) if pos else (n.orelse, n.body)
+                if is_sub(hit, S, K):
+                    count += 1
+                    return get(S, K, miss, n)
+            return n
+
+    E().visit(tree)
+
+    def rewrite(block):
+        nonlocal count
+        out = []
+        i = 0
+        while i < len(block):
+            st = block[i]
+            for fld in ("body", "orelse", "finalbody"):
+                sub = getattr(st, fld, None)
+                if isinstance(sub, list) and sub and isinstance(sub[0], ast.stmt):
+                    setattr(st, fld, rewrite(sub))
+            for h in getattr(st, "handlers", []) or []:
+                h.body = rewrite(h.body)
+            new = None
+            # try: t = E.attr / except AttributeError: t = D
+            if isinstance(st, ast.Try) and len(st.body) == 1 and len(st.handlers) == 1 and not st.orelse and not st.finalbody:
+                b, h = st.body[0], st.handlers[0]
+                if (
+                    isinstance(b, ast.Assign) and len(b.targets) == 1 and isinstance(b.targets[0], ast.Name) and isinstance(b.value, ast.Attribute) and handle(b.value.value)
+                    and isinstance(h.type, ast.Name) and h.type.id == "AttributeError" and h.name is None and len(h.body) == 1
+                    and isinstance(h.body[0], ast.Assign) and len(h.body[0].targets) == 1 and isinstance(h.body[0].targets[0], ast.Name) and h.body[0].targets[0].id == b.targets[0].id
+                ):
+                    v = ast.Call(func=ast.Name(id="getattr", ctx=ast.Load()), args=[b.value.value, ast.Constant(b.value.attr), h.body[0].value], keywords=[])
+                    new = [ast.Assign(targets=[b.targets[0]], value=v, type_comment=None)]
+                elif (
+                    isinstance(b, ast.Return) and isinstance(b.value, ast.Attribute) and handle(b.value.value)
+                    and isinstance(h.type, ast.Name) and h.type.id == "AttributeError" and h.name is None and len(h.body) == 1 and isinstance(h.body[0], ast.Return) and h.body[0].value is not None
+                ):
+                    v = ast.Call(func=ast.Name(id="getattr", ctx=ast.Load()), args=[b.value.value, ast.Constant(b.value.attr), h.body[0].value], keywords=[])
+                    new = [ast.Return(value=v)]
+            # if "k" [not] in S: ... (two-armed, or a guard clause followed by the other arm)
+            if new is None and isinstance(st, ast.If):
+                m = member(st.test)
+                if m is not None:
+                    S, K, pos = m
+                    arms = None
+                    used = 1
+                    if len(st.body) == 1 and len(st.orelse) == 1:
+                        arms = (st.body[0], st.orelse[0])
+                    elif len(st.body) == 1 and not st.orelse and isinstance(st.body[0], ast.Return) and i + 1 < len(block) and isinstance(block[i + 1], ast.Return):
+                        arms = (st.body[0], block[i + 1])
+                        used = 2
+                    if arms is not None:
+                        hit, miss = arms if pos else (arms[1], arms[0])
+                        if isinstance(hit, ast.Return) and isinstance(miss, ast.Return) and hit.value is not None and miss.value is not None and is_sub(hit.value, S, K):
+                            new = [ast.Return(value=get(S, K, miss.value, st))]
+                        elif (
+                            used == 1 and isinstance(hit, ast.Assign) and isinstance(miss, ast.Assign) and len(hit.targets) == 1 and len(miss.targets) == 1
+                            and isinstance(hit.targets[0], ast.Name) and isinstance(miss.targets[0], ast.Name) and hit.targets[0].id == miss.targets[0].id and is_sub(hit.value, S, K)
+                        ):
+                            new = [ast.Assign(targets=[hit.targets[0]], value=get(S, K, miss.value, st), type_comment=None)]
+                        if new is not None and used == 2:
+                            i += 1
+            if new is not None:
+                for n_ in new:
+                    ast.copy_location(n_, st)
+                    ast.fix_missing_locations(n_)
+                out.extend(new)
+                count += 1
+            else:
+                out.append(st)
+            i += 1
+        return out
+
+    for fn in [n for n in ast.walk(tree) if isinstance(n, (ast.FunctionDef, ast.AsyncFunctionDef))]:
+        fn.body = rewrite(fn.body)
+    if count:
+        ast.fix_missing_locations(tree)
+    return count
+
+
+# ---------------------------------------------------------------------------------
+# D = {}; for k, v in IT: D[k] = v        ->  D = dict(IT)
+# D = {}; for T in IT: D[K] = V           ->  D = {K: V for T in IT}
+# ---------------------------------------------------------------------------------
+def fill_loop_to_dict(tree: ast.Module) -> int:
+    count = 0
+
+    def rewrite(block):
+        nonlocal count
+        out = []
+        i = 0
+        while i < len(block):
+            st = block[i]
+            for fld in ("body", "orelse", "finalbody"):
+                sub = getattr(st, fld, None)
+                if isinstance(sub, list) and sub and isinstance(sub[0], ast.stmt):
+                    setattr(st, fld, rewrite(sub))
+            for h in getattr(st, "handlers", []) or []:
+                h.body = rewrite(h.body)
+            nxt = block[i + 1] if i + 1 < len(block) else None
+            if (
+                isinstance(st, ast.Assign) and len(st.targets) == 1 and isinstance(st.targets[0], ast.Name)
+                and ((isinstance(st.value, ast.Dict) and not st.value.keys) or (isinstance(st.value, ast.Call) and isinstance(st.value.func, ast.Name) and st.value.func.id == "dict" and not st.value.args and not st.value.keywords))
+                and isinstance(nxt, ast.For) and not nxt.orelse and len(nxt.body) == 1
+            ):
+                D = st.targets[0].id
+                b = nxt.body[0]
+                if isinstance(b, ast.Assign) and len(b.targets) == 1 and isinstance(b.targets[0], ast.Subscript) and isinstance(b.targets[0].value, ast.Name) and b.targets[0].value.id == D:
+                    K, V = b.targets[0].slice, b.value
+                    reads_D = any(isinstance(x, ast.Name) and x.id == D for e in (K, V, nxt.iter) for x in ast.walk(e))
+                    tnames = [x.id for x in ast.walk(nxt.target) if isinstance(x, ast.Name)]
+                    if not reads_D and all(isinstance(x, (ast.Name, ast.Tuple, ast.List)) for x in ast.walk(nxt.target) if isinstance(x, ast.expr)) and not any(isinstance(x, (ast.Yield, ast.YieldFrom, ast.Await, ast.NamedExpr)) for e in (K, V) for x in ast.walk(e)):
+                        if isinstance(nxt.target, ast.Tuple) and len(nxt.target.elts) == 2 and isinstance(K, ast.Name) and isinstance(V, ast.Name) and [K.id, V.id] == tnames:
+                            val = ast.Call(func=ast.Name(id="dict", ctx=ast.Load()), args=[nxt.iter], keywords=[])
+                        else:
+                            tgt = ast.parse(ast.unparse(nxt.target)).body[0].value  # fresh nodes
+                            for x in ast.walk(tgt):
+                                if isinstance(x, (ast.Name, ast.Tuple, ast.List)):
+                                    x.ctx = ast.Store()
+                            val = ast.DictComp(key=K, value=V, generators=[ast.comprehension(target=tgt, iter=nxt.iter, ifs=[], is_async=0)])
+                        new = ast.Assign(targets=[st.targets[0]], value=val, type_comment=None)
+                        ast.copy_location(new, nxt)
+                        ast.fix_missing_locations(new)
+                        out.append(new)
+                        count += 1
+                        i += 2
+                        continue
+            out.append(st)
+            i += 1
+        return out
+
+    for fn in [n for n in ast.walk(tree) if isinstance(n, (ast.FunctionDef, ast.AsyncFunctionDef))]:
+        fn.body = rewrite(fn.body)
     if count:
         ast.fix_missing_locations(tree)
     return count
